@@ -160,7 +160,10 @@ fn value_varint<const N: usize>(exclude_trigger: bool) {
         Ok(_) => assert!(false, "numeric id decoded to a non-numeric value"),
         Err(e) => {
             kani::cover!(len == 0, "empty value is an error, not a panic");
-            assert!(spec.is_none(), "only a truncated value is refused");
+            // refused exactly when the value is not ONE complete varint filling the declared length
+            // (truncated, or followed by surplus bytes)
+            assert!(!matches!(spec, Some((_, k)) if k == len), "a value that is exactly one varint is accepted");
+            kani::cover!(matches!(spec, Some((_, k)) if k < len), "surplus bytes are an error, not a panic");
             assert!(e.kind() == ErrorKind::TransportParameter);
             core::mem::forget(e);
         }
